@@ -71,6 +71,7 @@ fn main() {
         "C16" => run(storeprops::StoreProp::new("C16"), &args, 1500, 20000),
         "C17" => run(storeprops::StoreProp::new("C17"), &args, 2000, 30000),
         "C15" => run(storeprops::StoreProp::new("C15"), &args, 2000, 30000),
+        "C18" => run(storeprops::StoreProp::new("C18"), &args, 300, 4000),
         "C07" => run(storeprops::StoreProp::new("C07"), &args, 2000, 30000),
         _ => {
             eprintln!("usage: verif-harness <property> [--tier quick|thorough] [--seed N] [--cases N] [--out file] [--replay file]");
